@@ -78,8 +78,7 @@ class _TRSTractList:
         return obj
 
     def __setitem__(self, index, value):
-        self._verify_individual(value)
-        self._elements[index] = value
+        self._elements[index] = self._verify_individual(value)
 
     def __getitem__(self, item):
         return self._elements[item]
